@@ -72,6 +72,15 @@ def perturbations(text):
     yield "tabs-around", join(["\t" + l + "\t" for l in ls]), True
     yield "no-outer-newlines", "\n".join(ls) + ("\n" if len(ls) == 1 else ""), True
     yield "crlf", "\r\n".join([""] + ls + [""]), True
+    # timestamps of other widths on some of the lines (an instant without its fraction, a date only, a longer one):
+    # still only timestamps differ
+    def restamp(l, stamp):
+        return "[" + stamp + "] " + l.split("] ", 1)[1]
+    if len(ls) >= 2:
+        yield "short-timestamp-on-later-lines", join([ls[0]] + [restamp(l, "2017-11-05 15:17:39") for l in ls[1:]]), True
+        yield "short-timestamp-on-first-line", join([restamp(ls[0], "15:17:39")] + ls[1:]), True
+        yield "long-timestamp-on-last-line", join(ls[:-1] + [restamp(ls[-1], "2017-11-05 15:17:39.424492 000")]), True
+        yield "mixed-widths", join([restamp(l, "2017-11-05 15:17:39." + "4" * (1 + i % 6)) for i, l in enumerate(ls)]), True
     if len(ls) >= 1:
         yield "state-renamed", join([l.replace("->s", "->z", 1) if i == len(ls) - 1 else l for i, l in enumerate(ls)]), False
         yield "signal-renamed", join([l.replace("e->", "e->X", 1) if i == 0 else l for i, l in enumerate(ls)]), False
@@ -132,7 +141,7 @@ def run(tier):
     res.coverage = {"evaluations": n, "distinct_nontrivial": len(kinds), "states": len(kinds), "transitions": n,
                     "traces_validated_against_impl": n,
                     "rule": "traces produced by a real queued chart (names %r, 1-4 (thorough 1-7) records, 3 clock scripts) x catalogue of %d "
-                            "perturbations + single-line forms; distinct = (perturbation, records, chart name)" % (names, 15),
+                            "perturbations (incl. timestamps of differing widths within one trace) + single-line forms; distinct = (perturbation, records, chart name)" % (names, 19),
                     "samples": samples, "exhaustive": True}
     res.assumptions = ["state / signal / chart names contain no brackets or newlines"]
     return res
